@@ -695,6 +695,22 @@ def search(ctx):
             init = _gen_init(rng, ilead, K, N)
             ctx.count(f'singleton-init-{kind}')
             ctx.run(singleton_init_repeated, kind=kind, y=y, initialization=init, iterations=int(rng.integers(1, 4)))
+    # (3b) two leading axes, both larger than one, with the singleton of the initial affiliation BEHIND resp. IN FRONT
+    # of a full axis: (a, 1, K, N) and (1, b, K, N) against y of leading shape (a, b) - a flat/cyclic repetition
+    # (np.resize instead of np.broadcast_to) is only visible in the first of the two layouts
+    for kind in MIX_KINDS:
+        for pattern in ('behind', 'front'):
+            if ctx.out_of_time(reserve=5):
+                break
+            a, b = int(rng.integers(2, 4)), int(rng.integers(2, 4))
+            ilead = (a, 1) if pattern == 'behind' else (1, b)
+            D = _dims(rng, kind)
+            K = int(rng.integers(2, 4))
+            N = int(rng.integers(K * (D + 2), K * (D + 2) + 6))
+            y = _gen_y(rng, kind, (a, b), N, D)
+            init = _gen_init(rng, ilead, K, N)
+            ctx.count(f'singleton-init-{pattern}-{kind}')
+            ctx.run(singleton_init_repeated, kind=kind, y=y, initialization=init, iterations=int(rng.integers(1, 3)))
 
 
 # ----------------------------------------------------------------------------- correspondence (tensor layer vs NumPy / pb_bss)
